@@ -228,7 +228,8 @@ func verifC07SortedNames(tcs []*conformancev1.TestCase) vsx {
 //   (ok ((name simple version protocol codec compression stream tls-cert creds service method limit
 //         rawreq rawresp (group: protocol version tls certs)) ... sorted by name)
 //       number-of-groups (names of allPermutations(true,true), sorted)
-//       len allPermutations(false,false) len (true,false) len (false,true))
+//       len allPermutations(false,false) len (true,false) len (false,true)
+//       (serverInstancesSlice(lib, true), in order) names-issued-twice-by-allPermutations(true,true))
 func verifC07Once(suites map[string]*conformancev1.TestSuite, cases []configCase, mode conformancev1.TestSuite_TestMode) vsx {
 	lib, err := newTestCaseLibrary(suites, cases, mode)
 	if err != nil {
@@ -288,11 +289,70 @@ func verifC07Once(suites map[string]*conformancev1.TestSuite, cases []configCase
 			vL(vI(int64(inst.protocol)), vI(int64(inst.httpVersion)), vBool(inst.useTLS), vBool(inst.useTLSClientCerts)),
 		))
 	}
+	// serverInstancesSlice(lib, true): the one place where the code sorts - compared IN ORDER;
+	// the unsorted slice must hold the same instances (each key of casesByServer once)
+	sortedInsts := serverInstancesSlice(lib, true)
+	unsorted := serverInstancesSlice(lib, false)
+	if len(sortedInsts) != len(lib.casesByServer) || len(unsorted) != len(lib.casesByServer) {
+		return vErr("instances-count")
+	}
+	seenInst := map[serverInstance]bool{}
+	for _, inst := range unsorted {
+		if _, ok := lib.casesByServer[inst]; !ok || seenInst[inst] {
+			return vErr("instances-unsorted")
+		}
+		seenInst[inst] = true
+	}
+	insts := make([]vsx, 0, len(sortedInsts))
+	for _, inst := range sortedInsts {
+		if !seenInst[inst] {
+			return vErr("instances-sorted")
+		}
+		insts = append(insts, vL(vI(int64(inst.protocol)), vI(int64(inst.httpVersion)), vBool(inst.useTLS), vBool(inst.useTLSClientCerts)))
+	}
+	// names issued more than once by allPermutations(true, true): 0 unless a name segment is a gRPC marker
+	all := lib.allPermutations(true, true)
+	distinct := map[string]struct{}{}
+	for _, tc := range all {
+		distinct[tc.Request.TestName] = struct{}{}
+	}
+	// output order of allPermutations = the model's `order ++ client copies ++ server copies ++ both`:
+	// the library's own permutations first (each once, in whatever order the map gave), then the three
+	// filtered copies of THAT order (filterGRPCImplTestCases itself is compared in order by c07.filter)
+	if len(all) < len(lib.testCases) {
+		return vErr("all-permutations-structure")
+	}
+	own := all[:len(lib.testCases)]
+	seenOwn := map[*conformancev1.TestCase]bool{}
+	for _, tc := range own {
+		if lib.testCases[tc.Request.TestName] != tc || seenOwn[tc] {
+			return vErr("all-permutations-structure")
+		}
+		seenOwn[tc] = true
+	}
+	var rest []string
+	for _, flags := range [][2]bool{{true, false}, {false, true}, {true, true}} {
+		for _, tc := range lib.filterGRPCImplTestCases(own, flags[0], flags[1]) {
+			rest = append(rest, tc.Request.TestName)
+		}
+	}
+	if len(rest) != len(all)-len(own) {
+		return vErr("all-permutations-structure")
+	}
+	for i, name := range rest {
+		if all[len(own)+i].Request.TestName != name {
+			return vErr("all-permutations-structure")
+		}
+	}
+	// each group lists its members in one visiting order of the map; as a set it is fixed (checked above:
+	// every permutation sits in exactly one group, the one of its own server instance - compared per permutation)
 	return vL(vS("ok"), vL(perms...), vInt(len(lib.casesByServer)),
-		verifC07SortedNames(lib.allPermutations(true, true)),
+		verifC07SortedNames(all),
 		vInt(len(lib.allPermutations(false, false))),
 		vInt(len(lib.allPermutations(true, false))),
-		vInt(len(lib.allPermutations(false, true))))
+		vInt(len(lib.allPermutations(false, true))),
+		vL(insts...),
+		vInt(len(all)-len(distinct)))
 }
 
 func verifC07Creds(c *conformancev1.TLSCreds) vsx {
